@@ -139,6 +139,9 @@ class Harness:
 
     # -- guard-level entries
     def new_entry(self, msg):
+        for d in self.devs.values():  # a scripted one-shot misbehaviour belongs to one collect message only
+            if isinstance(d, Det):
+                d.misbehave = None
         self.cur = {"msg": msg, "docs": [], "calls": [], "err": None, "ops": []}
         self.entries.append(self.cur)
         return self.cur
@@ -266,7 +269,8 @@ class Harness:
             ev = msg.kwargs.get("_ev") if msg.command == "null" else None
             if ev is not None and ev["cmd"] != "null":
                 self.do_event(ev)
-            self.new_entry(self.describe_msg(msg))
+            e = self.new_entry(None)
+            e["msg"] = self.describe_msg(msg)
 
         RE.msg_hook = hook
         lg = logging.getLogger("bluesky")
@@ -417,6 +421,7 @@ def canon_real(docs, uidmap=None):
                     "run": u(d["run_start"]),
                     "stream": d["name"],
                     "keys": sorted(d["data_keys"]),
+                    "extKeys": sorted(k for k, v in d["data_keys"].items() if v.get("external") == "STREAM:"),
                     "objKeys": sorted([o, list(ks)] for o, ks in d["object_keys"].items()),
                     "config": sorted([o, sorted([k, v] for k, v in c["data"].items()), sorted(c["data_keys"])] for o, c in d["configuration"].items()),
                 }
@@ -472,6 +477,7 @@ def canon_model(docs, uidmap=None):
                     "run": u(d["run"]),
                     "stream": d["stream"],
                     "keys": sorted(d["keys"]),
+                    "extKeys": sorted(d.get("extKeys", [])),
                     "objKeys": sorted([o, list(ks)] for o, ks in d["objKeys"]),
                     "config": sorted([o, sorted(map(list, data)), sorted(dk)] for o, data, dk in d["config"]),
                 }
